@@ -500,7 +500,9 @@ class C18(core.Check):
         "the four fan disk classes are the rim / non-rim positions in every placement (T_C18_disk_finder_points, "
         "T_C18_disk_find), every rejection is a DegenerateGeometryError (T_C18_rejects_documented); round 6e: the finder on "
         "float positions equals the exact finder under an explicit rounding hypothesis (T_C18_finder_stable), whose gap part is "
-        "proved for the fan disk classes (round 6f: T_C18_disk_gap, T_C18_finder_stable_pv). Only "
+        "proved for the fan disk classes (round 6f: T_C18_disk_gap, T_C18_finder_stable_pv); round 6g: WrappedDisk in every "
+        "placement — shell finder = the four corners of the square, core finder = the inner square, circle points in "
+        "neither (T_C18_wrapped_finder_points). Only "
         "validator/oracle-checked: that the returned numbering of a block with warped sides satisfies Canonical "
         "as stated on the side area vectors (the theorem is stated on the hull triangles), that views without a clear winner on blocks whose adjacent sides are less than 60 degrees apart give one of the 48 relabellings, and that scipy's hull is a "
         "triangulation of the six sides (hypothesis of the theorem, decided per case)."
